@@ -18,10 +18,11 @@ META = {
              "caller's kwargs; HAS_ORJSON fixed at import) round-trips every in-domain value under all four (encoder backend, decoder "
              "backend) pairs, decodes backend-independently and emits no 0x0A/0x0D without indent - for ALL values, under eight explicit "
              "contracts on the four codecs; (2) a concrete reference codec (compact/spaced separators, raw-UTF-8 and \\uXXXX+surrogate-pair "
-             "escaping, strict RFC 8259 recursive-descent decoder, strict UTF-8) is proved to emit no byte < 0x20 for every value and "
-             "to round-trip (ref_decode (ref_encode p v) = Some v) for every well-formed value and all four policies, and to satisfy the "
-             "eight contracts itself. The tie runs the real fast_json in worker processes with and without orjson importable and compares "
-             "it byte-for-byte with the reference instantiation; the contracts are tested against the raw orjson / json codecs.",
+             "escaping, strict RFC 8259 recursive-descent decoder, strict UTF-8) is proved to emit no byte < 0x20 - hence no raw line "
+             "break - for every value and every policy (JsonEnc_no_control_byte, JsonEnc_single_frame). NOT proved: that the reference "
+             "decoder inverts the reference encoder and that the reference codec satisfies the eight contracts - both are TESTED on every "
+             "run (the reference instantiation of the wrapper is compared byte-for-byte with the real fast_json in worker processes with "
+             "and without orjson importable, and the contracts are tested against the raw orjson / json codecs).",
     "note": "Partial by nature: orjson and the stdlib json codec are opaque C/Rust code; the proof covers chuk-mcp's wrapper and the "
             "reference codec, the contracts linking them to the real codecs are empirical (tested on the generated values and on mutated "
             "texts each run). Floats are opaque (formatter/reader are oracles); domain = lone-surrogate-free strings, finite floats, "
